@@ -4,6 +4,7 @@
 From Coq Require Import NArith ZArith List String Bool Permutation.
 From V Require Import Base.UString Base.Json Model.SchemaTypes Model.PyBase Model.Schema Model.Serialize.
 From V Require Import Spec.JsonValue Proofs.C01Basics Proofs.C01Serialize.
+From V Require Import Proofs.C01Kinds Proofs.C01KindsAll Proofs.C01Object Proofs.C01Roundtrip Proofs.C01LibInstance Gen.Tables.
 Import ListNotations.
 
 (* All serialization options denote the same JSON value: whatever the option set, the value written
@@ -37,3 +38,77 @@ Theorem pretty_toplevel_order : forall c inner dfl hc incl,
   map fst ms = map fst (kept incl dfl inner).
 Proof. exact C01Serialize.pretty_toplevel_order. Qed.
 Print Assumptions pretty_toplevel_order.
+
+(* ------------------------------------------------------------------ the round trip *)
+
+(* The FULL statements the property asks for (targets; what is proved so far follows, each with the
+   explicit boolean predicates that name the covered kinds / classes / inputs):
+     roundtrip_equal        every object a run returns is returned again by parse of its own encoding
+     reserialize_identical  and encoding that object gives the same ordered members              *)
+Definition roundtrip_equal_full_statement : Prop :=
+  forall vr ev w pattern_ok selectors_ok fuel r c i d hc,
+    vr_year_pad vr = true ->
+    run vr ev w pattern_ok selectors_ok fuel r = Ok (PObject c i d hc) ->
+    exists fuel', run vr ev w pattern_ok selectors_ok fuel'
+                    (RParse (match r with RConstruct _ a _ _ _ => a | RParse a _ _ _ => a | RParseObs _ _ a _ _ => a end || hc)
+                            false None (omem (PObject c i d hc))) = Ok (PObject c i d hc).
+Definition reserialize_identical_full_statement : Prop :=
+  forall vr ev w pattern_ok selectors_ok fuel fuel' a o o' (opts : sopts),
+    vr_year_pad vr = true ->
+    run vr ev w pattern_ok selectors_ok fuel' (RParse a false None (omem o)) = Ok o' ->
+    (exists r, run vr ev w pattern_ok selectors_ok fuel r = Ok o) ->
+    serialize_value opts o' = serialize_value opts o.
+
+(* clean_encode_idem: every proved property kind re-cleans the encoding of what it cleaned to the same
+   value with the same custom flag.  kind_proved names the kinds: all but ObservableProperty,
+   STIXObjectProperty, ExtensionsProperty; hash dictionaries whose specification names are legal
+   dictionary keys; embedded objects / lists of objects of a class in P whose constructor is idempotent
+   (rc_idem).  plain_json: no member named custom_properties / extensions, no null / [] members. *)
+Theorem clean_encode_idem :
+  forall vr w rc rp ro, vr_year_pad vr = true ->
+  forall P, rc_idem rc P ->
+  forall k, kind_proved vr P k = true ->
+  forall allow interop v p hc, plain_json v = true ->
+    clean_kind vr w rc rp ro k allow interop v = Ok (p, hc) ->
+    clean_kind vr w rc rp ro k allow interop (encode false p) = Ok (p, hc).
+Proof. exact C01KindsAll.clean_kind_idem. Qed.
+Print Assumptions clean_encode_idem.
+
+(* roundtrip_equal, constructor level, partial: for every class set `ids` closed under nesting whose
+   tables pass class_ok (closed_ok: distinct slot names, proved slot kinds, defaults of the expected
+   shape, no reserved slot names, a class __init__ that leaves the keyword arguments alone), every
+   fuel and every plain input -- a 2.1 observable with its id given, as in serialized text --
+   constructing from the object's own encoding returns the same object: same class, same members in
+   the same order, same defaulted list, same custom flag. *)
+Theorem roundtrip_equal_partial :
+  forall vr ev w pattern_ok selectors_ok, vr_year_pad vr = true ->
+  forall ids, closed_ok vr w ids = true ->
+  forall fuel kid allow interop kw vrefs o,
+    mem_ustr kid ids = true -> plain_dict kw = true -> id_given w kid kw = true ->
+    run vr ev w pattern_ok selectors_ok fuel (RConstruct kid allow interop kw vrefs) = Ok o ->
+    run vr ev w pattern_ok selectors_ok fuel (RConstruct kid allow interop (omem o) vrefs) = Ok o.
+Proof. exact C01Roundtrip.construct_roundtrip. Qed.
+Print Assumptions roundtrip_equal_partial.
+
+(* reserialize_identical, constructor level, partial: ... and that object is written with the same
+   ordered members under every option set (hence byte-identical text under the abstract injective render) *)
+Theorem reserialize_identical_partial :
+  forall vr ev w pattern_ok selectors_ok, vr_year_pad vr = true ->
+  forall ids, closed_ok vr w ids = true ->
+  forall fuel kid allow interop kw vrefs o o' (opts : sopts),
+    mem_ustr kid ids = true -> plain_dict kw = true -> id_given w kid kw = true ->
+    run vr ev w pattern_ok selectors_ok fuel (RConstruct kid allow interop kw vrefs) = Ok o ->
+    run vr ev w pattern_ok selectors_ok fuel (RConstruct kid allow interop (omem o) vrefs) = Ok o' ->
+    serialize_value opts o' = serialize_value opts o.
+Proof. exact C01Roundtrip.reserialize_identical_construct. Qed.
+Print Assumptions reserialize_identical_partial.
+
+(* the generated tables of /repo: which classes the two theorems above cover (recomputed by the kernel
+   on every run; 110 of 123 at the pinned tables -- not: Bundle, ObservedData (member parsing),
+   Relationship, Sighting, StatementMarking, MarkingDefinition, 2.1 Indicator (class __init__ rewrites)) *)
+Theorem lib_classes_covered : closed_ok variant_repaired lib lib_proved_ids = true.
+Proof. exact C01LibInstance.lib_proved_closed. Qed.
+Print Assumptions lib_classes_covered.
+
+Example lib_coverage_count : fst lib_coverage = List.length lib_proved_ids /\ snd lib_coverage = List.length (wclasses lib).
+Proof. split; vm_compute; reflexivity. Qed.
